@@ -226,10 +226,21 @@ def fold_factories(im) -> FactoryFold:
     class_names = [c.name for c in t.attrs_classes()]
     out.classes = len(class_names)
     from .pymodel import MISSING as _MISSING
-    fields_of = {c.name: [Record("Attribute", {"name": f.name, "type": f.resolved,
+    from .pymodel import NONE as _NONE_TY
+
+    class _Fields(list):
+        """attrs.fields(cls): a tuple of Attribute objects that also answers `.attr_name`"""
+        def e5_attr(self, a):
+            for x in self:
+                if x.fields["name"] == a:
+                    return x
+            raise Raised("AttributeError", (a,))
+    # `.type` of an attribute annotated `None` is NoneType once forward references are resolved (which get_converter
+    # does before any factory runs); every other type is kept as the analysis' type expression
+    fields_of = {c.name: _Fields([Record("Attribute", {"name": f.name, "type": type(None) if f.resolved == _NONE_TY else f.resolved,
                                                  "default": ("NOTHING",) if f.default is _MISSING else f.default,
                                                  "validator": f.validator})
-                          for f in c.fields] for c in t.attrs_classes()}
+                          for f in c.fields]) for c in t.attrs_classes()}
 
     def one_pass(order):
         tit = types_interp(t)
